@@ -1,4 +1,5 @@
 mod exec_a;
+mod exec_b;
 mod gen;
 mod ops;
 mod props;
@@ -105,6 +106,33 @@ fn main() {
                 }
                 Err(e) => {
                     println!("parse error: {e}");
+                    1
+                }
+            }
+        }
+        "simb" => {
+            // ksim simb '<cfg text>' '<script>' [seed] [cost_us] [stall_permille]: executor B (real loop thread)
+            runner::install_panic_hook();
+            let cfg = args.get(2).cloned().unwrap_or_default();
+            let script = args.get(3).cloned().unwrap_or_default();
+            let seed: u64 = args.get(4).and_then(|s| s.parse().ok()).unwrap_or(1);
+            let cost: u64 = args.get(5).and_then(|s| s.parse().ok()).unwrap_or(0);
+            let stall: u64 = args.get(6).and_then(|s| s.parse().ok()).unwrap_or(0);
+            let ops = ops::parse_script(&script);
+            let sim = kanata_verif_rt::SimCfg { seed, cost_max_ns: cost * 1000, switch_permille: if cost > 0 { 200 } else { 0 }, stall_permille: stall, stall_min_ns: 2_000_000, stall_max_ns: 40_000_000, sleep_overshoot_max_ns: cost * 1000, tape: None, max_steps: 5_000_000 };
+            // seed 0 = strict mode: no jitter, ties resolved in task order (feeder first), phase 0
+            let (sim, phase) = if seed == 0 { (kanata_verif_rt::SimCfg { tape: Some(vec![]), max_steps: 5_000_000, ..Default::default() }, 0) } else { (sim, 250) };
+            match exec_b::run_b(&cfg, &[], &ops, &exec_b::BOpts { sim, tcp_task: true, phase_us: phase }) {
+                Ok(b) => {
+                    println!("{}", trace::outs_short(&b.outs));
+                    if std::env::var_os("KSIM_DUMP").is_some() {
+                        println!("dynamic_macros={}", b.dynamic_macros);
+                    }
+                    println!("ticks={} end_ms={} steps={} switches={} stalls={} clock_jumps={} tasks={} deadlock={} leaked={} panics={:?} down={:?} sched={:x}", b.ticks, b.end_ms, b.report.steps, b.report.switches, b.report.stalls, b.report.clock_jumps, b.report.tasks, b.report.deadlock, b.report.leaked, b.report.panics, b.down_at_end, b.report.schedule_hash);
+                    0
+                }
+                Err(e) => {
+                    println!("error: {e}");
                     1
                 }
             }
